@@ -172,6 +172,13 @@ def run_forward(c, rec):
         yi = np.asarray(ran.fun2par(F(np.asarray(dom.par2fun(P[:, i].copy())))), dtype=float)
         require(close(Ys.samples[:, i], yi, 1e-12), "forward(Samples) is not column-wise forward", i=i)
     require(maxdiff(S.samples, P) == 0, "forward altered the input samples")
+    # an integer-typed sample array: the same map, nothing truncated
+    Pint = np.round(2 * P).astype(int)
+    refused, Yi = refuses(lambda: model.forward(cuqi.samples.Samples(Pint.copy(), geometry=dom)))
+    refused2, Yfl = refuses(lambda: model.forward(cuqi.samples.Samples(Pint.astype(float), geometry=dom)))
+    if not refused and not refused2:
+        require(close(np.asarray(Yi.samples, dtype=float), np.asarray(Yfl.samples, dtype=float), 1e-12),
+                "forward(Samples with an integer-typed array) differs from forward of the same numbers as floats (truncated?)")
     # the same samples given as function values
     refused, Fsamp = refuses(lambda: S.funvals)
     if not refused:
